@@ -236,3 +236,8 @@ def search(drv, model, diverged, lean, rng):
             msg = c.check(o)
             if msg: return c, o, "direct oracle: " + msg
     return None
+
+# L2 guard-sequence fragment (extract/gen_guards.py -> lean/Op2Model/Gen/Guards.lean; notes/l2guards.md)
+LEAN_MODULES = LEAN_MODULES + ["Op2Proofs.Props.C03_Gen"]
+PROVED = PROVED + ("; " +
+          "L2 guard fragment (Gen/Guards.lean): C03_gen_prepareIndex_guard / C03_gen_prepareIndex_model (the regenerated refusal of one PrepareIndex iteration is offset + dataLength > Clm.offsetLimit, i.e. Clm.prepareIndex refuses that entry, for every offset <= 2^32 and uint32 length), C03_gen_nameMax_guard (a name is refused iff longer than Clm.nameMax)")
